@@ -5,7 +5,7 @@ use crate::srp::*;
 pub fn run(ctx: &mut Ctx) {
     let mut rng = ctx.rng("corr");
     // ---- sessions through the Coq model (each costs ~13 s of in-Coq big-integer arithmetic) ----
-    let n_plain = if ctx.quick() { 8 } else { 60 };
+    let n_plain = if ctx.quick() { 40 } else { 400 };
     for k in 0..n_plain {
         let ul = 1 + (k % 16); let pl = 16 - (k % 16);
         let u = rand_cred(&mut rng, ul); let p = rand_cred(&mut rng, pl);
@@ -18,12 +18,12 @@ pub fn run(ctx: &mut Ctx) {
         }
     }
     let classes: Vec<(&str, usize, Box<dyn Fn(&Login, &[u8; 32]) -> bool>)> = vec![
-        ("S with 1 low-order zero byte", if ctx.quick() { 5 } else { 24 }, Box::new(|_, s| s[0] == 0 && s[1] != 0)),
-        ("S with a high-order zero byte", 2, Box::new(|_, s| s[31] == 0)),
-        ("A with a high-order zero byte", 2, Box::new(|l, _| l.a_pub[31] == 0)),
-        ("B with a high-order zero byte", 2, Box::new(|l, _| l.b_pub[31] == 0)),
-        ("v with a high-order zero byte", 1, Box::new(|l, _| l.v[31] == 0)),
-        ("B < v (so B - k*v negative)", 2, Box::new(|l, _| le_lt(&l.b_pub, &l.v))),
+        ("S with 1 low-order zero byte", if ctx.quick() { 16 } else { 120 }, Box::new(|_, s| s[0] == 0 && s[1] != 0)),
+        ("S with a high-order zero byte", 6, Box::new(|_, s| s[31] == 0)),
+        ("A with a high-order zero byte", 6, Box::new(|l, _| l.a_pub[31] == 0)),
+        ("B with a high-order zero byte", 6, Box::new(|l, _| l.b_pub[31] == 0)),
+        ("v with a high-order zero byte", 4, Box::new(|l, _| l.v[31] == 0)),
+        ("B < v (so B - k*v negative)", 6, Box::new(|l, _| le_lt(&l.b_pub, &l.v))),
         ("B >= 3v, difference certainly not negative (v with small top byte)", 1, Box::new(|l, _| l.v[31] < 0x10 && l.b_pub[31] > 0x40)),
     ];
     for (label, n, pred) in classes {
